@@ -186,3 +186,22 @@ Definition json_to_json (inp : bytes) : option bytes :=
         else None
   | _ => None
   end.
+
+(* ---------- MessagePack -> JSON: the JSON writer driven by a reader's events ---------- *)
+
+(* one line per document; None when some document is not a value the writer
+   model covers (binary data, 32-bit floats, keys that are not strings) *)
+Definition json_of_docs (fmt : N -> bytes) (docs : list (list ev)) : option bytes :=
+  let trees := map (fun es => tree_of (S (length es)) es) docs in
+  if forallb (fun t => match t with Some (_, []) => true | _ => false end) trees then
+    Some (flat_map (fun t => match t with Some (v, _) => jwrite fmt v ++ [10%N] | None => [] end) trees)
+  else None.
+
+(* MessagePack -> JSON through the model: read with the slice loop, write every
+   document.  None when the input is not translated to the end, or holds a
+   float (whose spelling is not modelled) or a value outside the writer model. *)
+Definition msgpack_to_json (inp : bytes) : option bytes :=
+  let r := transcode_slice utf8_valid inp in
+  if mm_ok r then
+    if existsb has_float (fst r) then None else json_of_docs (fun _ => []) (fst r)
+  else None.
